@@ -60,6 +60,8 @@ const (
 	FBadLenSym      = "len-sym-286"          // fixed block using length symbol 286/287 (Arg 0/1)
 	FBadDistSym     = "dist-sym-30"          // fixed block using distance symbol 30/31
 	FHLIT           = "hlit-30"              // HLIT field 30 or 31 (Arg 0/1)
+	FHDIST          = "hdist-30"             // HDIST field 30 or 31 (Arg 0/1)
+	FRawLitLens     = "raw-litlen-lens"      // the literal/length code lengths are exactly Lens (any multiset; symbol 256 always gets a code); the block then uses only literals that have a code (or only end-of-block)
 	FRawDistLens    = "raw-dist-lens"        // the distance code lengths are exactly Lens (any multiset: complete, incomplete or over-subscribed); the block uses no match
 )
 
@@ -72,13 +74,15 @@ type Fault struct {
 	Lens  []int  `json:"lens,omitempty"` // FRawDistLens: code length of distance symbol i
 }
 
-// Stream is a list of blocks; the last one is final.
+// Stream is a list of blocks; the last one is final. PadBits makes the alignment padding before a stored
+// block's LEN field and after the final block random instead of zero (the format leaves it unspecified).
 type Stream struct {
 	Blocks []BlockSpec `json:"blocks"`
 	Fault  *Fault      `json:"fault,omitempty"`
 	// Tail is the number of valid-looking filler bytes to append after a faulty
 	// block so that decoders with look-ahead reach the defect with plenty of input.
-	Tail int `json:"tail,omitempty"`
+	Tail    int  `json:"tail,omitempty"`
+	PadBits bool `json:"padbits,omitempty"`
 }
 
 type Built struct {
@@ -123,6 +127,16 @@ func (w *bitw) bits(v uint32, n uint) {
 	}
 }
 func (w *bitw) pos() int64 { return int64(len(w.b))*8 + int64(w.nacc) }
+
+// alignPad is align with padding bits taken from pad (0 = zero bits, as every encoder writes).
+func (w *bitw) alignPad(pad uint32) {
+	if w.nacc > 0 {
+		w.acc |= uint64(pad) << w.nacc & 0xff
+		w.b = append(w.b, byte(w.acc))
+		w.acc, w.nacc = 0, 0
+	}
+}
+
 func (w *bitw) align() {
 	if w.nacc > 0 {
 		w.b = append(w.b, byte(w.acc))
@@ -387,7 +401,11 @@ func (s Stream) Build() Built {
 			r := &rng{s: b.Seed*2654435761 + 12345}
 			w.bits(fin, 1)
 			w.bits(0, 2)
-			w.align()
+			if s.PadBits {
+				w.alignPad(uint32(r.next() >> 20))
+			} else {
+				w.align()
+			}
 			nlen := uint32(^uint16(n))
 			if f != nil {
 				res.FaultBit = w.pos()
@@ -418,7 +436,11 @@ func (s Stream) Build() Built {
 	if !stop {
 		res.EndBit = w.pos()
 	}
-	w.align()
+	if s.PadBits && !stop {
+		w.alignPad(0xA5)
+	} else {
+		w.align()
+	}
 	if stop && s.Tail > 0 {
 		// filler after the defect: looks like compressed data (text-ish bytes)
 		r := &rng{s: 99}
@@ -547,6 +569,22 @@ func buildHuffman(w *bitw, out *[]byte, b BlockSpec, fin uint32, f *Fault, res *
 			at = len(syms) - 1
 		}
 	}
+	if fk == FRawLitLens {
+		// only literals that have a code in Lens (or nothing but end-of-block)
+		lit := -1
+		for i := 0; i < 256 && i < len(f.Lens); i++ {
+			if f.Lens[i] > 0 {
+				lit = i
+				break
+			}
+		}
+		if lit < 0 {
+			syms = syms[:0]
+		}
+		for i := range syms {
+			syms[i] = sym{lit: lit}
+		}
+	}
 	if fk == FRawDistLens {
 		for i := range syms {
 			if syms[i].lit < 0 {
@@ -613,6 +651,17 @@ func buildHuffman(w *bitw, out *[]byte, b BlockSpec, fin uint32, f *Fault, res *
 			df = make([]int, 30)
 		}
 		litLens = assign(286, lf, b.ExtraLit, 15, b.Chain, b.Fork, b.FreqSort, r, true)
+		if fk == FRawLitLens {
+			litLens = make([]uint8, 286)
+			for i, l := range f.Lens {
+				if i < 286 && l >= 0 && l <= 15 {
+					litLens[i] = uint8(l)
+				}
+			}
+			if litLens[256] == 0 {
+				litLens[256] = 15
+			}
+		}
 		ndused := 0
 		for _, c := range df {
 			if c > 0 {
@@ -949,7 +998,23 @@ func writeDynHeader(w *bitw, b BlockSpec, litLens, distLens []uint8, fk string, 
 		cls = append([]cl{{sym: 16, extra: 0, nx: 2}}, cls...)
 	}
 	if fk == FRunPast {
-		cls = append(cls, cl{sym: 18, extra: uint32(f.Arg % 128), nx: 7})
+		// Arg/128 selects the run symbol (0: 18 zeros, 1: 17 zeros, 2: 16 repeat previous), Arg%128 its
+		// extra bits; At (when it is smaller than the number of items) cuts the item list there first,
+		// so that a long run starts in the literal/length part and passes the whole distance part
+		if f.At > 0 && f.At < len(cls) && f.Arg >= 384 {
+			cls = cls[:f.At]
+		}
+		switch (f.Arg / 128) % 3 {
+		case 1:
+			cls = append(cls, cl{sym: 17, extra: uint32(f.Arg % 8), nx: 3})
+		case 2:
+			if len(cls) == 0 {
+				cls = append(cls, cl{sym: 1})
+			}
+			cls = append(cls, cl{sym: 16, extra: uint32(f.Arg % 4), nx: 2})
+		default:
+			cls = append(cls, cl{sym: 18, extra: uint32(f.Arg % 128), nx: 7})
+		}
 	}
 	// code-length code
 	cf := make([]int, 19)
@@ -1001,7 +1066,13 @@ func writeDynHeader(w *bitw, b BlockSpec, litLens, distLens []uint8, fk string, 
 		res.FaultDone = true
 	}
 	w.bits(hlit, 5)
-	w.bits(uint32(ndist-1), 5)
+	hdist := uint32(ndist - 1)
+	if fk == FHDIST {
+		hdist = uint32(30 + f.Arg%2)
+		res.FaultBit = hdrStart
+		res.FaultDone = true
+	}
+	w.bits(hdist, 5)
 	w.bits(uint32(ncode-4), 4)
 	for i := 0; i < ncode; i++ {
 		w.bits(uint32(clLens[clOrder[i]]), 3)
@@ -1024,9 +1095,9 @@ func writeDynHeader(w *bitw, b BlockSpec, litLens, distLens []uint8, fk string, 
 		w.bits(c.extra, c.nx)
 	}
 	switch fk {
-	case FRepeatFirst, FRunPast, FHLIT:
+	case FRepeatFirst, FRunPast, FHLIT, FHDIST:
 		return true
-	case FOverLit, FOverDist, FRawDistLens:
+	case FOverLit, FOverDist, FRawDistLens, FRawLitLens:
 		res.FaultBit = hdrStart
 		res.FaultDone = true
 	}
